@@ -95,7 +95,7 @@ impl Want {
         self.prop == p
     }
     fn envelope_family(&self) -> bool {
-        matches!(self.prop.as_str(), "C01" | "C02" | "C03" | "C04" | "C10" | "C16")
+        matches!(self.prop.as_str(), "C01" | "C02" | "C03" | "C04" | "C10" | "C16" | "C19")
     }
 }
 
@@ -600,7 +600,10 @@ fn replay_one<T: MomT>(h: &Value, ops: &[Op], specs: &[SlotSpec], cxs: &[Ctx], e
                     continue;
                 }
                 let tg = tags::<T>(acc, addonly, spec.n, cx.constant, exp);
-                if !tg.contains(&want.prop.as_str()) {
+                // C19 (parallel collection) is decided on the fold/reduce-shaped histories by the
+                // same comparisons as C02 (merge == concatenation)
+                let tagprop = if want.is("C19") { "C02" } else { want.prop.as_str() };
+                if !tg.contains(&tagprop) && !(want.is("C19") && tg.contains(&"C11")) {
                     continue;
                 }
                 rep.evaluations += 1;
